@@ -176,6 +176,8 @@ func init() {
 		l3Unit("numbers-with-defaults", map[string]int{"KINDS": 6, "DEPTH": 0, "DEFAULTS": 1, "NONULL": 1, "NUMSHAPES": 4}, "C05.", "number/integer properties with a default that satisfies their own bounds: absent or null optional values are never bound-checked"),
 		l3Unit("numbers-in-arrays-and-objects", map[string]int{"KINDS": 48, "DEPTH": 1, "ITEMKINDS": 6, "NUMSHAPES": 4}, "C05.", "numbers as array items and as members of a nested object"),
 		l3UnitT("integers/min-sized", map[string]int{"KINDS": 4, "DEPTH": 0, "MINSIZED": 1, "NUMSHAPEMASK": 46, "REF": 0}, map[string]int{"KINDS": 4, "DEPTH": 0, "MINSIZED": 1}, "C05.", "integer properties with --min-sized-ints on and off (the option may narrow the Go type but the emitted bounds must still denote the stated interval)"),
+		l3UnitT("numbers/bounds-with-many-digits", map[string]int{"KINDS": 2, "DEPTH": 0, "BOUNDCONST": 1, "NUMSHAPEMASK": 14, "N": 1, "GRID": 0}, map[string]int{"KINDS": 2, "DEPTH": 0, "BOUNDCONST": 1, "N": 1, "GRID": 0}, "C05.",
+			"number properties whose stated bounds need many decimal digits or an exponent (0.1234564, 1e-7, -2.5e-6, 1e21, 123456789.125, 0.30000000000000004), the document value a symbolic float64 (IEEE semantics, no grid): the emitted comparison uses the stated bound to the last bit"),
 		l3UnitT("multiple-of", map[string]int{"KINDS": 6, "DEPTH": 0, "NUMSHAPES": 2, "MULT": 6}, map[string]int{"KINDS": 6, "DEPTH": 0, "NUMSHAPES": 4, "MULT": 6}, "C05.",
 			"number/integer properties with multipleOf 1, 0.5, 3, 2.5 or 300 (integral and fractional, alone or next to bounds) x nullable x required x inline/$ref: accepted iff the value is an exact multiple (remainders within the emitted 1e-10 tolerance carry no promise)"))
 	reg(&Property{
@@ -323,6 +325,11 @@ func init() {
 			Bounds: "B=2 branches (3 thorough), inline or $ref, one string member per branch",
 			Quick:  map[string]int{"REF": 1, "NESTED": 1, "B": 2}, Thor: map[string]int{"REF": 1, "NESTED": 1, "B": 3},
 			Panic:  "inconclusive"},
+		{Name: "allOf-anyOf/two-compositions-sharing-their-first-branch", Harness: "pkg/generator:HarnessC11", Layer: "L3",
+			Desc:   "a second composition w in the same schema (generated before x) shares its first branch -- the same $ref'd definition -- with x and adds a branch of its own about another member: x still means exactly its own branches (what one composition merges stays its own)",
+			Bounds: "B=2 $ref branches plus one sibling composition; symbolic minLength/maxLength limits, symbolic document",
+			Quick:  map[string]int{"REF": 2, "NAMES": 1, "CONSTR": 2, "B": 2, "TWICE": 1, "GRID": 2, "GRIDMAG": 36}, Thor: map[string]int{"REF": 2, "NAMES": 2, "CONSTR": 3, "B": 2, "TWICE": 1, "GRID": 2, "GRIDMAG": 36},
+			Panic:  "inconclusive"},
 		{Name: "allOf-ref-branches-across-documents", Harness: "pkg/generator:HarnessC20", Layer: "L3", Only: "C11.",
 			Desc:   "two documents in one run, each with its own definition named Base behind the same reference string inside allOf: the composed type in money.json is the conjunction of ITS document's branches (symbolic minLength, symbolic document), in three package layouts and both argument orders",
 			Bounds: "two files", Panic: "inconclusive"},
@@ -354,8 +361,8 @@ func init() {
 			Thor:   map[string]int{"GRID": 2, "GRIDMAG": 36, "NUMSHAPES": 4, "STRSHAPES": 4, "ARRSHAPES": 3, "DEFAULTS": 1, "DEPTH": 2},
 			Panic:  "inconclusive"},
 		{Name: "cli/flag-wiring", Harness: ".:HarnessCLIFlagWiring", Layer: "L3",
-			Desc:   "main.go's Run closure under all 128 combinations of --extra-imports, --only-models, --struct-name-from-title, --min-sized-ints, a --capitalization, a --tags list and a --schema-root-type mapping: the bytes on stdout equal what the library emits for the generator.Config those flags denote (each flag reaches the field it names and no other)",
-			Bounds: "one schema file; flag variables set directly (cobra's parsing and flag names are outside)",
+			Desc:   "main.go's Run closure under all 128 combinations of --extra-imports, --only-models, --struct-name-from-title, --min-sized-ints, a --capitalization, a --tags list and a --schema-root-type mapping, times three mapping layouts (one id; two ids where the id sorting first / last carries the larger set of per-schema flags): stdout and every written file equal what the library emits for the generator.Config those flags denote (each flag reaches the field it names, for the id it names, and no other)",
+			Bounds: "one or two schema files; flag variables set directly (cobra's parsing and flag names are outside)",
 			Panic:  "inconclusive"},
 	}})
 	reg(&Property{ID: "C20", Units: []Unit{
@@ -396,12 +403,12 @@ func init() {
 	}})
 	reg(&Property{ID: "C14", Units: []Unit{
 		{Name: "identifierize/symbolic-runes", Harness: "internal/x/text:HarnessC14L1", Layer: "L1",
-			Desc:   "Caser.Identifierize / splitIdentifierByCaseAndSeparators / Capitalize on strings of 1..R symbolic runes; every rune ranges over all realizable attribute vectors of Go's Unicode tables (computed by scanning all 0x110000 code points: IsLower/IsUpper/IsLetter/IsNumber/IsDigit/'_'/'*' of r, ToUpper(r), ToTitle(r), ToLower(r) and map(r)==r); unicode.Is*/To* on symbolic runes are table lookups over the class variable: the result is non-empty, starts with an upper-case letter (exported) and consists of letters, decimal digits and '_' only",
+			Desc:   "Caser.Identifierize / splitIdentifierByCaseAndSeparators / Capitalize on strings of 1..R symbolic runes; every rune ranges over all realizable attribute vectors of Go's Unicode tables (computed by scanning all 0x110000 code points: IsLower/IsUpper/IsLetter/IsNumber/IsDigit/'_'/'*'/IsSpace/IsPunct/IsSymbol/IsMark/IsControl of r, ToUpper(r), ToTitle(r), ToLower(r) and map(r)==r); unicode.Is*/To* on symbolic runes are table lookups over the class variable: the result is non-empty, starts with an upper-case letter (exported) and consists of letters, decimal digits and '_' only",
 			Bounds: "R=3 runes quick (R=4 thorough); empty --capitalization list (strings.EqualFold on symbolic runes is not modelled); len() of a symbolic rune string is its rune count (the code only compares it with 0)",
 			Quick:  map[string]int{"R": 3}, Thor: map[string]int{"R": 4},
 			Panic:  "violation"},
 		{Name: "colliding-sibling-names", Harness: "pkg/generator:HarnessC14L3", Layer: "L3",
-			Desc:   "every 3-subset (thorough: 4-subset of 8) of four 6-name families of sibling property names that collide after normalisation, including names that look like the suffixed form the de-duplication produces (foo/Foo/FOO/Foo_2/foo_2/foo2, a-b/a_b/aB/AB/'a b'/A_B_2, id/Id/ID/i_d/Id_2/id2, x1/x_1/X1/x-1/X1_2/X_1_2), with and without --capitalization ID: the emitted struct type-checks (distinct field names), every json tag carries the exact original name exactly once, and a document with all keys (symbolic integers) is accepted",
+			Desc:   "every 3-subset (thorough: 4-subset of 8) of seven 6-name families of sibling property names that collide after normalisation, including names that look like the suffixed form the de-duplication produces (foo/Foo/FOO/Foo_2/foo_2/foo2, a-b/a_b/aB/AB/'a b'/A_B_2, id/Id/ID/i_d/Id_2/id2, x1/x_1/X1/x-1/X1_2/X_1_2, names with %, names with white space, names with combining marks -- for the last family names and tags only, encoding/json does not bind such tags), with and without --capitalization ID: the emitted struct type-checks (distinct field names), every json tag carries the exact original name exactly once, and a document with all keys (symbolic integers) is accepted",
 			Bounds: "concrete name sets (representatives); per-field value binding is checked only through acceptance of the required keys",
 			Quick:  map[string]int{"POOL": 6, "SIBLINGS": 3}, Thor: map[string]int{"POOL": 8, "SIBLINGS": 4},
 			Panic:  "inconclusive"},
@@ -421,8 +428,8 @@ func init() {
 	reg(&Property{ID: "C12", Units: []Unit{
 		{Name: "map-order-schedules", Harness: "pkg/generator:HarnessC12", Layer: "L3", MapOrd: 5, SameEmits: true,
 			Desc:   "every `range` over a Go map executed in repository code (sites discovered dynamically: sortedKeys, sortDefinitionsByName, Sources, beginOutput, hasDecl...) is a schedule choice; all orders of maps with <= 3 entries are explored and every schedule must emit byte-identical files under identical names (hole terms compared syntactically)",
-			Bounds: "three harness shapes (single file with 3 properties / 2 definitions; two schema ids mapped to two files and packages; definition names differing only in case); maps with <= K=5 entries per site; schedules are enumerated by forking -- the solver contributes nothing here beyond hole identity (weakest fit of the family, stated in DESIGN §8 C12); JSON key permutation is map order after parsing; directory independence and main.go's allKeys are not covered",
-			Quick:  map[string]int{"SHAPES": 3},
+			Bounds: "four harness shapes (single file with 3 properties / 2 definitions; two schema ids mapped to two files and packages; definition names differing only in case; literals rendered through the dumper -- composite array default, enumerations -- in two files), each rendered twice and generated again by a fresh generator in the same process; maps with <= K=5 entries per site; schedules are enumerated by forking -- the solver contributes nothing here beyond hole identity (weakest fit of the family, stated in DESIGN §8 C12); JSON key permutation is map order after parsing; directory independence and main.go's allKeys are not covered",
+			Quick:  map[string]int{"SHAPES": 4},
 			Panic:  "inconclusive"},
 		{Name: "cli/map-order-schedules", Harness: ".:HarnessCLIDeterminism", Layer: "L3", MapOrd: 4, SameEmits: true,
 			Desc:   "main.go's Run closure (flag variables set directly; stringSliceToStringMap, allKeys, the mapping loop, generator.New, DoFile through the real cached/multi/file loaders and the real JSON parser on a virtual file system, the Sources loop with MkdirAll/OpenFile/Write, os.Exit) executed under every iteration order of every map the CLI or the generator ranges over: eight flag/argument scenarios (two ids with different sets of mapping flags; no mapping; package+output under one key; two spellings of one schema id in different and in the same flag map; two schemas fully mapped; external $ref with one default file; one schema to a file and one to stdout) must each give ONE exit status, ONE stdout and ONE set of files",
